@@ -449,7 +449,8 @@ def build_tree_obj(obj, ns=None, taxa=None, empty_ns=False):
     if enc:
         tree.encode_bipartitions(suppress_unifurcations=False, collapse_unrooted_basal_bifurcation=False,
                                  is_bipartitions_mutable=enc["mutable"])
-        if enc["maps"] and not enc["mutable"]:
+        if enc["maps"] and not enc["mutable"] and not (empty_ns or obj.get("empty_ns")):
+            # (without any taxon the encoding leaves mutable bipartitions behind, which cannot key the edge maps)
             tree.bipartition_edge_map
             tree.split_bitmask_edge_map
     return tree
